@@ -390,6 +390,9 @@ def link(state, address: int) -> bytes:
     return b""
 
 
+MAX_INCLUDE_DEPTH = 32
+
+
 @metacommand(size=0)
 def include(state, included_file_path: str):
     include_path = devices.resolve_relative_path(included_file_path, state["filename"])
@@ -428,7 +431,21 @@ def include(state, included_file_path: str):
     from . import parser
     file_ast = parser.parse(include_path, code)
 
-    code = state["compiler"].compile_include(file_ast, state["emit_address"])
+    compiler = state["compiler"]
+    if compiler.include_depth >= MAX_INCLUDE_DEPTH:
+        # Most probably a file that includes itself (directly or not) without
+        # '.once': stop before Python's recursion limit does
+        reports.error(
+            "recursive-include",
+            (state["insn"].ctx_start, state["insn"].ctx_end, f"Includes are nested more than {MAX_INCLUDE_DEPTH} levels deep while including '{include_path}'. Does the file include itself? (Use '.once' to include a file only once.)")
+        )
+        return b""
+
+    compiler.include_depth += 1
+    try:
+        code = compiler.compile_include(file_ast, state["emit_address"])
+    finally:
+        compiler.include_depth -= 1
 
     return code
 
